@@ -29,7 +29,7 @@ def biased_programs(rnd, n):
     S2 = ("struct", (("a", INT), ("b", STR), ("c", BOOL)))
     U = multi(S1, INT)
     for _ in range(n):
-        k = rnd.randrange(8)
+        k = rnd.randrange(9)
         if k == 0:
             # mixed-type array iterated past exhaustion: the junk default of a union element type
             els = rnd.sample([I(1), ("s", "a"), ("true",), ("f", 1.5), ("unit",)], rnd.randint(2, 4))
@@ -67,6 +67,22 @@ def biased_programs(rnd, n):
             CU = multi(cell(multi(INT, FLOAT)), cell(multi(INT, STR)))
             out.append([("fndecl", "w", [("x", CU)], multi(INT, FLOAT, STR), [("assign", "set", V("x"), I(5)), ("return", ("pre", "deref", V("x")))]),
                         ("call", V("w"), [("mut", multi(INT, STR), ("s", "a"))])])
+        elif k == 8:
+            # a built-in reducer / general reduce / for over the EMPTY iterator `[]~` handed over at a static type that is
+            # a union of iterator types or an iterator of a union: the unit / default it yields must not depend on the
+            # iteration order of the union's members
+            els = rnd.choice([(FLOAT, STR), (INT, FLOAT), (INT, STR), (INT, FLOAT, STR), (STR, arr(INT)), (BOOL, INT)])
+            ity = rnd.choice([multi(*[iter_of(e) for e in els]), iter_of(multi(*els))])
+            op = rnd.choice(["sum", "sum", "product", "bitand", "bitor", "all", "any", "collect"])
+            form = rnd.randrange(3)
+            if form == 0:
+                out.append([("fndecl", "f", [], ity, [("return", ("post", "iter", ("array", [])))]), ("post", op, ("call", V("f"), []))])
+            elif form == 1:
+                out.append([("fndecl", "g", [("it", ity)], ANY, [("return", ("post", op, V("it")))]),
+                            ("call", V("g"), [("post", "iter", ("array", []))])])
+            else:
+                out.append([("fndecl", "f", [], ity, [("return", ("post", "iter", ("array", [])))]), ("set", "it", ("call", V("f"), [])),
+                            ("set", "r", ("post", op, V("it"))), ("tuple", [V("r"), ("call", V("it"), [])])])
         else:
             # type filter by a union of structs (formats the type into source text and re-parses it)
             vals = [("struct", [("a", I(1)), ("b", ("s", "x"))]), I(2), ("s", "z"), ("struct", [("a", I(3))])]
@@ -149,7 +165,7 @@ def run(res, tier, seed, broken_model):
             res.traces_validated += 1
     res.samples.append(dict(request=lines[0][:300], answer=runs[0][0][:300]))
     res.rule = ("types (unions of multi-key structs, cells of unions, hand families, generated to depth 3/4) parsed K+1 times: pairwise ==, the 13 static queries (structurally equal answers), "
-                "matches, HashSet size, mut-wrapped match; programs (8 biased families: mixed arrays pulled past exhaustion, cells of "
+                "matches, HashSet size, mut-wrapped match; programs (9 biased families: built-in reducers over `[]~` at union iterator types,  mixed arrays pulled past exhaustion, cells of "
                 "struct unions, matches in shuffled arm order, folds over union members, unions of function types, modules, unions of "
                 "cells, type filters by struct unions; plus seeded general programs) parsed and run K times in one process and again in "
                 "two more processes; non-trivial = distinct type / program")
